@@ -76,32 +76,33 @@ class O2JMap(Map[O2JNoteList, O2JHitList, O2JHoldList, O2JBpmList]):
 
         offset = 0
         measure = 0
-        bpm_ix = -1
+        bpm_ix = 0
         bpm_val = init_bpm
 
-        next_bpm_measure = bpms[0].measure if len(bpms) > 0 else None
-        for note_measure in note_measures:
-            if not next_bpm_measure:
-                while note_measure > next_bpm_measure:
-                    bpm_ix += 1
-                    bpm = bpms[bpm_ix]
-                    # Update offset
-                    offset += RAConst.min_to_msec((bpm.measure - measure) * 4 / bpm_val)
-                    bpm.offset = offset
-                    measure = bpm.measure
-                    bpm_val = bpm.bpm
+        def apply_bpms_until(until_measure):
+            """Advances the sweep over every bpm event at or before the measure"""
+            nonlocal offset, measure, bpm_ix, bpm_val
+            while bpm_ix < len(bpms) and (
+                until_measure is None or bpms[bpm_ix].measure <= until_measure
+            ):
+                bpm = bpms[bpm_ix]
+                # Update offset
+                offset += RAConst.min_to_msec((bpm.measure - measure) * 4 / bpm_val)
+                bpm.offset = offset
+                measure = bpm.measure
+                bpm_val = bpm.bpm
+                bpm_ix += 1
 
-                    # Check if next one is available
-                    if bpm_ix + 1 == len(bpms):
-                        next_bpm_measure = None
-                        break
-                    else:
-                        next_bpm_measure = bpm.measure
+        for note_measure in note_measures:
+            apply_bpms_until(note_measure)
 
             # We add it into the measure: offset dictionary.
             note_measure_dict[note_measure] = offset + RAConst.min_to_msec(
                 4 * (note_measure - measure) / bpm_val
             )
+
+        # Bpm events after the last note still need their offsets
+        apply_bpms_until(None)
 
         # We then assign all the offsets here
         for note in notes:
